@@ -70,6 +70,15 @@ void link_case(size_t n, std::pair<size_t, size_t> wa, std::vector<std::pair<siz
     Real lin = LinearForm{}((EA::make(c, v) * a) * (EB::make(c, v) * b));
     En.prove("wb" + W(wb) + "/bilinear-equals-linear-of-product", sym::eq(bil, lin));
   }
+  if constexpr (oa == ob) {
+    // the same spline object in both slots, operators of one C++ type that differ in state (scalar, factor spline)
+    Real c2 = Real::var("c2");
+    if (EA::divides_by_c || EB::divides_by_c) En.assume(sym::ne(c2, Real(0)));
+    auto v = mkspline<FO>(grid, 0, n, "v"), w = mkspline<FO>(grid, n >= 3 ? 1 : 0, n, "w");
+    Real bil = BilinearForm{EA::make(c, v), EB::make(c2, w)}(a, a);
+    Real lin = LinearForm{}((EA::make(c, v) * a) * (EB::make(c2, w) * a));
+    En.prove("same-object-both-slots/bilinear-equals-linear-of-product", sym::eq(bil, lin));
+  }
   if (wa.first + 1 < wa.second) {
     auto b = mkspline<ob>(grid, wa.first, wa.second, "b");
     auto v = mkspline<FO>(grid, 0, n, "v");
